@@ -238,7 +238,10 @@ Proof.
   induction l as [|st l IH]; intros s e; cbn [fold_left fst snd zeros fold_right]; [lia|].
   destruct e.
   - specialize (IH s true). fold (zeros l). nia.
-  - pose proof (at_sim_start_pm k c now m st s) as H1. unfold restart_stage. destruct (at_sim_start k c now m st s) as [s1 e1]. cbn [fst snd] in *.
+  - pose proof (at_sim_start_pm k c now m st s) as H1.
+    change (restart_stage k c now m st s) with
+      (fst (at_sim_start k c now m st s), snd (at_sim_start k c now m st s) || negb (active (w_mod (x_w (fst (at_sim_start k c now m st s))) m))).
+    destruct (at_sim_start k c now m st s) as [s1 e1]. cbn [fst snd] in *.
     specialize (IH s1 (e1 || negb (active (w_mod (x_w s1) m)))). fold (zeros l). destruct (st =? 0); nia.
 Qed.
 
